@@ -22,6 +22,7 @@ LATE = {
  "C17-C": "`driven` systems whose prescribed motion starts late in the run",
  "C18-C": "scene with two contacts of different friction coefficients",
  "C18-D": "falling-bar tip scene (contact set unchanged while the normal directions turn); the earlier, accidental detection through a harness error was removed (Appendix F)",
+ "C19-A": "there-and-back thresholds calibrated on the unchanged solver (it returns to within 4e-10; 'violated' from 5e-8 instead of 1e-5): a scheme that is reversible only to O(dt^3) misses by 1e-7 .. 1e-6",
  "C20-C": "large initial times (`BigT0`)",
  "C03-B": "`T_SO3_dot` is compared along every direction, among them the direction of the ray itself (rates parallel to psi)",
  "C23-A": "two dedicated problems placed at 170 degrees about the axis the rod is bent about (the scalar parts of the nodal quaternions change sign along the rod)",
